@@ -607,3 +607,40 @@ def r_polar_height(cx):
             n += 1
             cx.ob("R-POLAR-HEIGHT", fn, False, "anchor-missing: no polar short-cut |Z| - axis in %s" % fn, cx.where(f.d["span"]))
     cx.count("R-POLAR-HEIGHT", "polar_heights", n)
+
+
+SUBSCRIPTS = "₀₁₂₃₄₅₆₇₈₉"
+
+
+@rule("T-SUBSCRIPTS", ["C16"])
+def t_subscripts(cx):
+    """`lat₂=45` is a spelling of `lat_2=45`: every replacement of `normalize` whose pattern contains a subscript digit
+    writes the same digit, behind an underscore, in its place (₂ -> _2, never _1)."""
+    name = "<T as token::Tokenize>::normalize"
+    f = cx.f.fn(name)
+    n = 0
+    seen = set()
+    for bb, t in f.calls():
+        if (f.callee(t) or "").rsplit("::", 1)[-1] not in ("replace", "replacen"):
+            continue
+        a = f.arg_terms(bb)
+        if len(a) < 3:
+            continue
+        p, r = mir.strip_refs(a[1]), mir.strip_refs(a[2])
+        if not (p[0] == "const" and isinstance(p[2], tuple) and r[0] == "const" and isinstance(r[2], tuple)):
+            continue
+        pat, rep = str(p[2][1]), str(r[2][1])
+        digs = [ch for ch in pat if ch in SUBSCRIPTS]
+        if not digs:
+            continue
+        n += 1
+        want = pat
+        for ch in digs:
+            want = want.replace(ch, "_%d" % SUBSCRIPTS.index(ch))
+        seen.add(digs[0])
+        ok = rep == want
+        cx.ob("T-SUBSCRIPTS", "normalize/%s" % ("sub%d" % SUBSCRIPTS.index(digs[0])), ok,
+              "%r is written as %r" % (pat, rep) if ok else
+              "normalize rewrites the subscript spelling %r as %r (expected %r): `lat₂=45` then sets another index and "
+              "the last-wins rule overwrites it" % (pat, rep, want), cx.where(t["span"]))
+    cx.count("T-SUBSCRIPTS", "subscript_rules", n)
